@@ -47,7 +47,7 @@ SHARD = 250
 RULE = ("sequences of 0..8 rows written by write_row calls or - half of the cases - by a random split into write_row and "
         "write_rows calls (a write_rows call stops at its first rejected row; calls after a rejection continue the file), mixing accepted rows, field errors, wrong item counts and duplicates x "
         "delimited and fixed CIDs (Text/Choice fields, lengths, allowed characters; line delimiter lf/cr/crlf/any/none "
-        "for fixed) x header 0..1 x target {text stream, stream encoded in ASCII with rows carrying a character it cannot represent, a file the writer opens itself (UTF-8) with byte order mark / Unicode line separator characters as data, read back by path} x IsUnique / DistinctCount checks; observed: outcome of every call, the final stream "
+        "for fixed) x header 0..3 (the header rows written by any mixture of write_row and write_rows calls) x target {text stream, stream encoded in ASCII with rows carrying a character it cannot represent, a file the writer opens itself (UTF-8) with byte order mark / Unicode line separator characters as data, read back by path} x IsUnique / DistinctCount checks; observed: outcome of every call, the final stream "
         "text, the close verdict; the produced text is then read back under a freshly loaded copy of the CID and must "
         "yield exactly the accepted rows (modulo padding) without a rejection. Non-trivial: at least one accepted and "
         "one rejected call. Distinct = distinct (CID, rows).")
@@ -163,7 +163,7 @@ def direct_oracle(inp, obs):
 
 def gen_inputs(tier, rnd):
     for _ in range(700 if tier == "quick" else 8000):
-        spec = V.gen_spec(rnd, header=rnd.choice([0, 0, 1]))
+        spec = V.gen_spec(rnd, header=rnd.choice([0, 0, 1, 1, 2, 3]))
         if spec["format"] == "fixed":
             spec["line_delimiter"] = rnd.choice(["lf", "cr", "crlf", "any", "none", None])
             if spec["line_delimiter"] is None:
